@@ -45,13 +45,13 @@ META = {
 
 def run(rep):
     order = writer_schema(rep)
-    reader_schema(rep, order)
-    writer_sides(rep)
-    reader_edges(rep)
-    standard_order(rep)
-    unions(rep)
-    other_readers(rep, order)
-    pipeline(rep)
+    rep.run(reader_schema, order)
+    rep.run(writer_sides)
+    rep.run(reader_edges)
+    rep.run(standard_order)
+    rep.run(unions)
+    rep.run(other_readers, order)
+    rep.run(pipeline)
 
 
 # ------------------------------------------------------------------ O1.1
